@@ -524,3 +524,169 @@ def strip_marks(forest):
             t[4].pop("_patch", None)
             t[4].pop("_rebase", None)
     return forest
+
+
+# ------------------------------------------------------------------ deterministic grid (the same for every seed)
+
+def boundaries(bits: int) -> list[int]:
+    top = (1 << bits) - 1
+    pool = {0, 1, 2, top, top - 1, 1 << (bits - 1)}
+    for e in (31, 32, 33, 53, 63):
+        pool |= {(1 << e) - 1, 1 << e, (1 << e) + 1}
+    return sorted(v for v in pool if 0 <= v <= top)
+
+
+def _frag(kids, large=False):
+    import random
+    r = random.Random(7)
+    tfhd = dict(version=0, flags=0x020000, track_id=1, base_data_offset=0, sample_description_index=0,
+                default_sample_duration=0, default_sample_size=0, default_sample_flags=0)
+    return [("N", cc("moof"), large, [leaf("mfhd", "mfhd", dict(version=0, flags=0, sequence_number=1)),
+                                      ("N", cc("traf"), False, [leaf("tfhd", "tfhd", tfhd)] + kids)])]
+
+
+GRID_FIELDS = {     # kind -> [(field, bits for version 0, bits for version 1)]
+    "mfhd": [("sequence_number", 32, 32), ("flags", 24, 24)],
+    "tfdt": [("base_media_decode_time", 32, 64)],
+    "mehd": [("fragment_duration", 32, 64)],
+    "trex": [("track_id", 32, 32), ("default_sample_description_index", 32, 32), ("default_sample_duration", 32, 32),
+             ("default_sample_size", 32, 32), ("default_sample_flags", 32, 32)],
+    "tenc": [("is_encrypted", 24, 24), ("iv_size", 8, 8)],
+    "ftyp": [("minor_version", 32, 32)],
+    "sidx": [("reference_id", 32, 32), ("timescale", 32, 32), ("earliest_presentation_time", 32, 64),
+             ("first_offset", 32, 64)],
+    "emsg": [("timescale", 32, 32), ("event_duration", 32, 32), ("event_id", 32, 32),
+             ("presentation_time_delta", 32, None), ("presentation_time", None, 64)],
+    "dec3": [("data_rate", 13, 13)],
+}
+
+
+def grid_cases():
+    """fixed list of (label, forest, ctx): every numeric field of every modelled class at every boundary of
+    its width in both versions, lists of 0/1/2/3 items, every header form, every order of the children of
+    a traf, every content class in every opaque field, long payloads around power-of-two sizes"""
+    import itertools
+    import random
+    out = []
+    ctx0 = (8, 0, [])
+    for kind, fields in GRID_FIELDS.items():
+        for ver in (0, 1):
+            r = random.Random(f"grid:{kind}:{ver}")
+            for field, b0, b1 in fields:
+                bits = b1 if ver else b0
+                if bits is None:
+                    continue
+                for v in boundaries(bits):
+                    f = gen_fields(kind, r)
+                    if "version" in f and kind not in ("mfhd", "trex", "tenc"):
+                        if f["version"] != ver:
+                            f = dict(f, version=ver)
+                            for fld, c0, c1 in fields:      # re-fit the width-dependent fields
+                                w = c1 if ver else c0
+                                f[fld] = 0 if w is None else min(f.get(fld, 0), (1 << w) - 1)
+                    elif ver == 1:
+                        continue
+                    f[field] = v
+                    name = "styp" if kind == "ftyp" and v % 2 else kind
+                    out.append((f"{kind}.{field}={v}", [leaf(name, kind, f)], ctx0))
+    # list lengths 0..3 and header forms
+    r = random.Random("grid:lists")
+    for n in (0, 1, 2, 3):
+        f = gen_fields("ftyp", r); f["compatible_brands"] = [ascii4(r) for _ in range(n)]
+        out.append((f"ftyp.brands#{n}", [leaf("ftyp", "ftyp", f)], ctx0))
+        f = gen_fields("pssh", r); f["version"] = 1; f["key_ids"] = [P.fixed(r, 16) for _ in range(n)]
+        out.append((f"pssh.key_ids#{n}", [leaf("pssh", "pssh", f)], ctx0))
+        f = gen_fields("sidx", r); f["references"] = [(k % 2, boundaries(31)[-1 - k], boundaries(32)[k], 1 - k % 2, 7 - k,
+                                                        boundaries(28)[-1 - k]) for k in range(n)]
+        out.append((f"sidx.references#{n}", [leaf("sidx", "sidx", f)], ctx0))
+        for ver in (0, 1):
+            f = dict(version=ver, flags=0, aux_info_type=0, aux_info_type_parameter=0,
+                     offsets=[boundaries(64 if ver else 32)[-1 - k] for k in range(n)])
+            out.append((f"saio.v{ver}.offsets#{n}", [leaf("saio", "saio", f)], ctx0))
+        f = dict(version=0, flags=1, aux_info_type=0x63656e63, aux_info_type_parameter=0, default_sample_info_size=0,
+                 sample_count=n, sample_info_sizes=[0, 255, 8][:n])
+        out.append((f"saiz.sizes#{n}", [leaf("saiz", "saiz", f)], ctx0))
+        f = gen_fields("dec3", r); f["substreams"] = f["substreams"][:1] * (n + 1)
+        out.append((f"dec3.substreams#{n + 1}", [leaf("dec3", "dec3", f)], ctx0))
+        for ver in (0, 1):
+            t = dict(version=ver, flags=0xF01, sample_count=n, data_offset=[-2**31, 2**31 - 1, -1, 0][n],
+                     first_sample_flags=0,
+                     samples=[(boundaries(32)[-1 - k], boundaries(32)[k], 2**32 - 1,
+                               ([-2**31, 2**31 - 1, -1] if ver else [2**32 - 1, 2**31, 0])[k]) for k in range(n)])
+            out.append((f"trun.v{ver}.samples#{n}", _frag([leaf("trun", "trun", t)]), ctx0))
+    for kind in ("mfhd", "tfdt", "emsg", "pssh", "sidx", "dec3", "opaque"):
+        f = gen_fields(kind, r)
+        name = "free" if kind == "opaque" else kind
+        out.append((f"{kind}.largesize", [leaf(name, kind, f, True)], ctx0))
+    out.append(("uuid.largesize", [("L", "u" + P.fixed(r, 16).hex(), True, "opaque", dict(data=b"xyz"))], ctx0))
+    # tfhd: each optional field alone and all together, at the boundaries
+    for bit, field, bits in ((0, "base_data_offset", 64), (1, "sample_description_index", 32),
+                             (3, "default_sample_duration", 32), (4, "default_sample_size", 32),
+                             (5, "default_sample_flags", 32)):
+        for v in boundaries(bits):
+            f = dict(version=0, flags=(1 << bit) | 0x020000, track_id=2**32 - 1, base_data_offset=0,
+                     sample_description_index=0, default_sample_duration=0, default_sample_size=0, default_sample_flags=0)
+            f[field] = v
+            out.append((f"tfhd.{field}={v}", [("N", cc("moof"), False, [("N", cc("traf"), False, [leaf("tfhd", "tfhd", f)])])], ctx0))
+    # every order of the sample-encryption group around the trun (deferred parsing of senc / PIFF)
+    r = random.Random("grid:order")
+    senc, saiz = gen_cenc(r, 8, False)
+    while not senc["samples"] or senc["flags"] & 1:
+        senc, saiz = gen_cenc(r, 8, False)
+    group = [leaf("saiz", "saiz", saiz), leaf("saio", "saio", dict(version=0, flags=0, aux_info_type=0,
+                                                                    aux_info_type_parameter=0, offsets=[0, 0])),
+             leaf("senc", "senc", senc), ("L", PIFF, False, "senc", dict(senc)),
+             leaf("trun", "trun", dict(version=0, flags=0, sample_count=0, data_offset=0, first_sample_flags=0, samples=[]))]
+    ctx = (8, saiz["default_sample_info_size"], saiz["sample_info_sizes"])
+    for perm in itertools.permutations(range(5)):
+        out.append(("traf-order:" + "".join(map(str, perm)), _frag([copy_tree(group[i]) for i in perm]), ctx))
+    # senc: 0..3 samples x sub-sample counts, IV 8/16, with and without the override
+    for iv in (8, 16):
+        for n in (0, 1, 2, 3):
+            for over in (0, 1):
+                samples = [(P.fixed(r, iv), [(boundaries(16)[-1 - j], boundaries(32)[-1 - j]) for j in range(k)])
+                           for k in range(n)]
+                flags = 2 | over
+                sf = dict(version=0, flags=flags, algorithm_id=2**24 - 1 if over else 0, iv_size=iv,
+                          kid=P.fixed(r, 16) if over else b"", samples=samples)
+                sizes = [iv + (2 + 6 * len(sub) if sub else 0) for _, sub in samples]
+                sz = dict(version=0, flags=0, aux_info_type=0, aux_info_type_parameter=0, default_sample_info_size=0,
+                          sample_count=n, sample_info_sizes=sizes)
+                out.append((f"senc.iv{iv}.samples#{n}.override{over}",
+                            _frag([leaf("saiz", "saiz", sz), leaf("senc", "senc", sf)]), (iv, 0, sizes)))
+    # every content class in every opaque field; fixed-width fields that start with '0x'
+    for cls in P.CLASSES:
+        rr = random.Random("grid:" + cls)
+        data = P.content(rr, cls)
+        e = gen_fields("emsg", rr); e["data"] = data
+        ps = gen_fields("pssh", rr); ps["data"] = data
+        out.append((f"content:{cls}", [leaf("free", "opaque", dict(data=data)), leaf("emsg", "emsg", e),
+                                       leaf("pssh", "pssh", ps), ("L", "u" + P.fixed(rr, 16).hex(), False, "opaque",
+                                                                  dict(data=data)), leaf("mdat", "opaque", dict(data=data))], ctx0))
+    for i in range(8):
+        rr = random.Random(f"grid:fixed:{i}")
+        ps = gen_fields("pssh", rr); ps["version"] = 1
+        ps["system_id"] = (b"0x" + b"0123456789abcdef")[:16] if i == 0 else P.fixed(rr, 16)
+        ps["key_ids"] = [(b"0x" + b"00112233445566")[:16], P.fixed(rr, 16)]
+        te = gen_fields("tenc", rr); te["default_kid"] = b"0xdeadbeefcafe00" if i == 0 else P.fixed(rr, 16)
+        out.append((f"fixed-width:{i}", [leaf("pssh", "pssh", ps), leaf("tenc", "tenc", te)], ctx0))
+    # strings: escapes, entities, placeholders, multi-byte
+    for i, txt in enumerate(["urn:a%20b+c&d;e=f", "&nbsp;&#0;&lt;", "{placeholder} }{", "0x1234", "日本語€𝄞", "", "a" * 1024]):
+        e = gen_fields("emsg", random.Random(i)); e["scheme_id_uri"] = txt.encode(); e["value"] = txt[::-1].encode()
+        out.append((f"string:{i}", [leaf("emsg", "emsg", e)], ctx0))
+    return out
+
+
+def long_payload_cases(sizes):
+    out = []
+    for n in sizes:
+        data = bytes((i * 7 + n) & 0xFF for i in range(n))
+        out.append((f"payload#{n}", [leaf("styp", "ftyp", dict(major_brand=b"msdh", minor_version=0, compatible_brands=[])),
+                                     leaf("free", "opaque", dict(data=data[: n // 3])),
+                                     leaf("mdat", "opaque", dict(data=data))], (8, 0, [])))
+    return out
+
+
+def copy_tree(t):
+    import copy
+    return copy.deepcopy(t)
